@@ -262,6 +262,28 @@ func genC12() {
 			fail("%s: BuildIndex: no const blockSize", relIdx)
 		}
 	}
+	// does the per-manifest loop of BuildIndex look at Platform.Variant when it builds the tag key?
+	if fd := findFunc(relIdx, "", "BuildIndex"); fd != nil {
+		usesVariant, seenLoop := false, false
+		ast.Inspect(fd, func(n ast.Node) bool {
+			rs, ok := n.(*ast.RangeStmt)
+			if !ok || !strings.HasSuffix(exprText(rs.X), ".Manifests") {
+				return true
+			}
+			seenLoop = true
+			ast.Inspect(rs.Body, func(m ast.Node) bool {
+				if se, ok := m.(*ast.SelectorExpr); ok && se.Sel.Name == "Variant" {
+					usesVariant = true
+				}
+				return true
+			})
+			return false
+		})
+		if !seenLoop {
+			fail("%s: BuildIndex: loop over manifest.Manifests not found", relIdx)
+		}
+		g.def("bundle_key_includes_variant", "bool", fmt.Sprint(usesVariant), "BuildIndex's tag key for an image mentions m.Platform.Variant (false: finding C12-F1)")
+	}
 	fdGen := findFunc(relIdx, "", "generateIndexWithMediaType")
 	g.def("index_annotation_stores", "list (string * string)", c12Pairs(c12MapStores(fdGen, "annCopy")), "annCopy[\"key\"] = value stores of generateIndexWithMediaType, in source order")
 	if len(c12MapStores(fdGen, "annCopy")) == 0 {
@@ -354,6 +376,30 @@ func genC12() {
 			fail("%s: BuildImageFromLayers: no annotations[...] stores", relImg)
 		}
 		g.def("image_annotation_stores", "list (string * string)", c12Pairs(st), "annotations[\"key\"] = value stores, in source order")
+	}
+
+	// does the copy BuildImageFromLayers works on carry VCSUrl?
+	{
+		const relCfg = "pkg/build/types/image_configuration.go"
+		copies := false
+		scan := func(fd *ast.FuncDecl, lhs string) {
+			if fd == nil {
+				return
+			}
+			ast.Inspect(fd, func(n ast.Node) bool {
+				if as, ok := n.(*ast.AssignStmt); ok {
+					for _, l := range as.Lhs {
+						if exprText(l) == lhs {
+							copies = true
+						}
+					}
+				}
+				return true
+			})
+		}
+		scan(findFunc(relCfg, "ImageConfiguration", "MergeInto"), "target.VCSUrl")
+		scan(fdImg, "ic.VCSUrl")
+		g.def("merge_into_copies_vcs_url", "bool", fmt.Sprint(copies), "ImageConfiguration.MergeInto assigns target.VCSUrl (or BuildImageFromLayers assigns ic.VCSUrl); false: finding C12-F2")
 	}
 
 	// ---- architectures -------------------------------------------------------
